@@ -168,10 +168,41 @@ def errorHandle (p : Pkt) : Option Report :=
 
 /-! ## socket receive loop -/
 
+/-- an element of the socket's `Vec<Box<dyn ScmpHandler>>`: one of the two handlers the crate ships, or an arbitrary
+    user implementation of the public trait `ScmpHandler` – modelled by the only thing the receive loop uses of it,
+    the function `handle : &ScionRawPacketView → Option<ScionRawPacket>` (side effects of a user handler other than
+    its return value are outside the model) -/
 inductive Handler
   | error
   | echo
-deriving Repr, DecidableEq
+  | custom (handle : Pkt → Option RawPkt)
+
+/-- the two handlers the crate ships (`ScmpErrorHandler`, `DefaultEchoHandler`) -/
+def Handler.builtin : Handler → Bool
+  | .error => true
+  | .echo => true
+  | .custom _ => false
+
+/-- code of a handler type in the generated wiring table `STACK_SOCKET_HANDLERS` -/
+def handlerOfCode : Nat → Option Handler
+  | 0 => some .error
+  | 1 => some .echo
+  | _ => none
+
+/-- the handler list `ScionStack::<f>` passes to `PathUnawareUdpScionSocket::new` for the socket it returns
+    (`f` = `bind_with_config`, which `bind` / `connect*` go through, or `bind_path_unaware`); read off stack.rs by the
+    translator.  `none` = no such construction site. -/
+def handlersOfCodes : List Nat → Option (List Handler)
+  | [] => some []
+  | c :: cs =>
+    match handlerOfCode c, handlersOfCodes cs with
+    | some h, some hs => some (h :: hs)
+    | _, _ => none
+
+def stackHandlers (f : String) : Option (List Handler) :=
+  match STACK_SOCKET_HANDLERS.lookup f with
+  | some cs => handlersOfCodes cs
+  | none => none
 
 /-- effect of one handler on one SCMP packet: reports to each of `n` receivers, optional encoded reply sent -/
 structure Effect where
@@ -187,6 +218,12 @@ def runHandler (rev : Rev) (nRecv : Nat) (h : Handler) (p : Pkt) : Effect :=
     | none => {}
   | .echo =>
     match echoHandle rev p with
+    | some r => match r.encode with
+      | some bytes => { sent := [bytes] }
+      | none => {}
+    | none => {}
+  | .custom f =>
+    match f p with
     | some r => match r.encode with
       | some bytes => { sent := [bytes] }
       | none => {}
